@@ -230,6 +230,7 @@ class timemodel(_coreiterative):
             stop=None, flush=None, monitors={}, directives={}):
         """ """
         self.reset(itstart=0) # reset cputime and nit
+        self.__dict__.pop('jacobian_use', None) # forget jacobian cached by a previous integration
         self._remove_monitor_output(monitors)
         return self._solve(f, condition, tsave, stop, flush, monitors, directives)
 
